@@ -400,6 +400,13 @@ class C14Check(C01Check):
     def run_one(self, ch, keep_log=False, **kw):
         res = super().run_one(ch, keep_log=keep_log, **kw)
         res["nontrivial"] = res["probes"].get("pairs_judged", 0) >= 1
+        # the constraints these cheatcodes add (range / width of a fresh symbol, `deal`, ...) go onto the path without a feasibility
+        # check; a reported path with unsatisfiable constraints, in a run in which no branching query was answered `unknown`, means
+        # such a constraint contradicts the path: everything after the cheatcode would be verified vacuously
+        if res["probes"].get("paths_vacuous", 0) and not res["faults"].get("branch_unknown", 0) and not res["violations"]:
+            res["violations"] = [dict(oracle="C14:fresh-symbol", disc="vacuous-path",
+                                      detail=f"{res['probes']['paths_vacuous']} reported path(s) have unsatisfiable constraints although every "
+                                             f"branching query was decided; steps {res['descriptor'].get('steps') if isinstance(res.get('descriptor'), dict) else ''}")]
         return res
 
 
